@@ -222,3 +222,141 @@ fn c08_poke_reaches_display_copy() {
     kani::cover!(hit_attr && pl == 1, "poke into bank 7 attributes");
     kani::cover!(landed.is_none() && addr < 0x4000, "ROM poke");
 }
+
+// =============================================================================================
+// C16 — the result does not depend on how the host slices execution
+// =============================================================================================
+static mut SCRIPT: [usize; 5] = [0; 5];
+static mut SCRIPT_PC: [u16; 5] = [0; 5];
+static mut SCRIPT_POS: usize = 0;
+
+/// Replacement for `Z80::emulate`: the i-th instruction of a fixed (symbolic) program takes
+/// SCRIPT[i] T-states and ends at PC SCRIPT_PC[i].
+fn scripted_cpu_step<B: rustzx_z80::Z80Bus>(_cpu: &mut Z80, bus: &mut B) {
+    unsafe {
+        kani::assume(SCRIPT_POS < 5);
+        let d = SCRIPT[SCRIPT_POS];
+        let pc = SCRIPT_PC[SCRIPT_POS];
+        SCRIPT_POS += 1;
+        bus.wait_internal(d);
+        bus.pc_callback(pc);
+    }
+}
+
+/// total T-states of the first `k` scripted instructions
+fn script_sum(k: usize) -> usize {
+    let mut s = 0;
+    let mut i = 0;
+    while i < 5 {
+        if i < k {
+            s += unsafe { SCRIPT[i] };
+        }
+        i += 1;
+    }
+    s
+}
+
+// @harness
+// @prop C16
+// @tier quick
+// @timeout 1500
+// @fn Emulator::emulate_frames (FrameCount(n), Max, breakpoint stop and resume); Emulator::set_speed; Emulator::set_debug_interface; ZXController::pc_callback; ZXController::wait_internal; ZXController::reset_frame_counter; ZXController::take_events
+// @sym machine, start frame time, a program of 5 instruction lengths (1..frame-1 T each) and end PCs, host slicing in {2 frames per call; 1 frame per call twice; maximum-speed mode with arbitrary stopwatch readings and time limit; 2 frames with a breakpoint address that may hit anywhere and a resume}, stopwatch readings
+// @assert whatever the slicing, after the host has driven the machine the emulated time is a function of the instructions executed only: clock == (start + sum of executed lengths) mod frame, frame ends counted == (start + sum) div frame; FrameCount(2) in one call and FrameCount(1) twice stop after the same instruction (the first that completes the second frame); a breakpoint stop loses nothing and the resume continues with the next instruction; max-speed mode stops only at a frame end
+// @bound 5 abstract instructions per query (paths needing more are cut by an assume), <= 2 frames
+// @stub Z80::emulate -> scripted step (length and PC from the symbolic program); ZXScreen::process_clocks -> no-op
+// @replay solver-only
+#[kani::proof]
+#[kani::unwind(12)]
+#[kani::stub(rustzx_z80::Z80::emulate, scripted_cpu_step)]
+#[kani::stub(crate::zx::video::screen::ZXScreen::process_clocks, ch::noop_screen_clocks)]
+fn c16_host_slicing_does_not_matter() {
+    let m = any_machine();
+    let f = ch::spec_frame_len(m);
+    let mut e = mk_emulator(m, FbCtx { wx: 0, wy: 0 });
+    let t0: usize = kani::any();
+    kani::assume(t0 < f);
+    e.controller.frame_clocks = t0;
+    unsafe {
+        let mut i = 0;
+        while i < 5 {
+            let d: usize = kani::any();
+            kani::assume(d >= 1 && d < f);
+            SCRIPT[i] = d;
+            SCRIPT_PC[i] = kani::any();
+            i += 1;
+        }
+        SCRIPT_POS = 0;
+    }
+    let limit = Duration::from_millis(kani::any::<u16>() as u64);
+    let mode: u8 = kani::any();
+    kani::assume(mode < 4);
+    let mut frames_seen = 0usize;
+    let mut stopped_at_frame_end = true;
+    match mode {
+        0 => {
+            e.set_speed(EmulationMode::FrameCount(2));
+            let r = e.emulate_frames(limit);
+            kani::assert(matches!(r, Ok(EmulationInfo { stop_reason: EmulationStopReason::Completed, .. })), "c16.slice.two_frames_complete");
+            frames_seen += e.controller.frames_count();
+        }
+        1 => {
+            e.set_speed(EmulationMode::FrameCount(1));
+            let r = e.emulate_frames(limit);
+            kani::assert(matches!(r, Ok(EmulationInfo { stop_reason: EmulationStopReason::Completed, .. })), "c16.slice.first_frame_completes");
+            frames_seen += e.controller.frames_count();
+            let r = e.emulate_frames(limit);
+            kani::assert(matches!(r, Ok(EmulationInfo { stop_reason: EmulationStopReason::Completed, .. })), "c16.slice.second_frame_completes");
+            frames_seen += e.controller.frames_count();
+        }
+        2 => {
+            e.set_speed(EmulationMode::Max);
+            let r = e.emulate_frames(limit);
+            kani::assert(matches!(r, Ok(EmulationInfo { stop_reason: EmulationStopReason::Timeout, .. })), "c16.slice.max_mode_stops_on_time_limit");
+            // frames are counted per inner round in this mode: recompute from the clock below
+            frames_seen = (t0 + script_sum(unsafe { SCRIPT_POS })) / f;
+            kani::assert(frames_seen >= 1, "c16.slice.max_mode_runs_whole_frames");
+        }
+        _ => {
+            e.set_debug_interface(crate::verif_hooks::VDbg { bp: kani::any(), enabled: true });
+            e.set_speed(EmulationMode::FrameCount(2));
+            let r = e.emulate_frames(limit);
+            match r {
+                Ok(EmulationInfo { stop_reason: EmulationStopReason::Breakpoint, .. }) => {
+                    // resume: the host simply calls again (frame counter restarts, so ask for what is left)
+                    let done = e.controller.frames_count();
+                    frames_seen += done;
+                    stopped_at_frame_end = false;
+                    if done < 2 {
+                        e.controller.debug_interface = None;
+                        e.set_speed(EmulationMode::FrameCount(2 - done));
+                        let r2 = e.emulate_frames(limit);
+                        kani::assert(matches!(r2, Ok(EmulationInfo { stop_reason: EmulationStopReason::Completed, .. })), "c16.slice.resume_completes");
+                        frames_seen += e.controller.frames_count();
+                        stopped_at_frame_end = true;
+                    }
+                }
+                Ok(EmulationInfo { stop_reason: EmulationStopReason::Completed, .. }) => {
+                    frames_seen += e.controller.frames_count();
+                }
+                _ => kani::assert(false, "c16.slice.no_error_or_timeout_in_frame_count_mode"),
+            }
+        }
+    }
+    let k = unsafe { SCRIPT_POS };
+    let total = t0 + script_sum(k);
+    kani::assert(e.controller.frame_clocks == total % f, "c16.slice.clock_is_function_of_executed_instructions");
+    kani::assert(frames_seen == total / f, "c16.slice.frame_ends_counted_exactly");
+    if mode != 2 && stopped_at_frame_end {
+        // stopped after the first instruction that completes the second frame
+        kani::assert(total >= 2 * f && t0 + script_sum(k - 1) < 2 * f, "c16.slice.same_stop_point_for_every_slicing");
+    }
+    if mode == 2 {
+        kani::assert(k >= 1 && (t0 + script_sum(k - 1)) / f < total / f, "c16.slice.max_mode_stops_at_a_frame_end");
+    }
+    kani::cover!(mode == 1 && k == 5, "frame-by-frame, five instructions");
+    kani::cover!(mode == 0 && k == 4, "two frames per call");
+    kani::cover!(mode == 2 && frames_seen == 2, "max mode ran two frames");
+    kani::cover!(mode == 3 && !stopped_at_frame_end, "breakpoint in the last instruction");
+    kani::cover!(mode == 3 && stopped_at_frame_end && k == 5 && e.controller.debug_interface.is_none(), "breakpoint mid-way then resume to completion");
+}
